@@ -476,7 +476,24 @@ class _Imp(object):
             return self.ty(n.body)
         if isinstance(n, ast.Constant) and isinstance(n.value, bool):
             return "bool"
+        if self._max1_ceil(n) is not None:
+            return "nat"
         return "num"
+
+    @staticmethod
+    def _max1_ceil(n):
+        """`max(1, int(math.ceil(e)))` -> e"""
+        if isinstance(n, ast.Call) and ast.unparse(n.func) == "max" and len(n.args) == 2 and not n.keywords \
+                and ast.unparse(n.args[0]) == "1" and isinstance(n.args[1], ast.Call) \
+                and ast.unparse(n.args[1].func) == "int" and len(n.args[1].args) == 1 \
+                and isinstance(n.args[1].args[0], ast.Call) and ast.unparse(n.args[1].args[0].func) == "math.ceil" \
+                and len(n.args[1].args[0].args) == 1:
+            return n.args[1].args[0].args[0]
+        return None
+
+    def num(self, n):
+        """n as a float operand (an integer count is converted)"""
+        return "(MathOps.ofNat %s)" % self.ex(n) if self.ty(n) == "nat" else self.ex(n)
 
     def truth(self, n):
         return self.ex(n) if self.ty(n) == "bool" else "!(%s == 0)" % self.ex(n)    # truthiness of a float
@@ -499,11 +516,13 @@ class _Imp(object):
                 and "self_" + n.attr in self.env:
             return "self_" + n.attr
         if isinstance(n, ast.UnaryOp) and isinstance(n.op, ast.USub):
-            return "-%s" % self.ex(n.operand)
+            return "(-%s)" % self.ex(n.operand)
         if isinstance(n, ast.UnaryOp) and isinstance(n.op, ast.Not):
             return "!(%s)" % self.truth(n.operand)
         if isinstance(n, ast.BinOp) and type(n.op) in _BIN:
-            return "(%s %s %s)" % (self.ex(n.left), _BIN[type(n.op)], self.ex(n.right))
+            return "(%s %s %s)" % (self.num(n.left), _BIN[type(n.op)], self.num(n.right))
+        if self._max1_ceil(n) is not None:
+            return "(max 1 (MathOps.ceilNat %s))" % self.ex(self._max1_ceil(n))
         if isinstance(n, ast.BinOp) and isinstance(n.op, ast.BitXor) and self.ty(n.left) == "bool" \
                 and self.ty(n.right) == "bool":
             return "(xor %s %s)" % (self.ex(n.left), self.ex(n.right))
@@ -527,6 +546,10 @@ class _Imp(object):
                 return "(MathOps.hypot %s %s)" % tuple(args)
             if f == "math.sqrt" and len(args) == 1:
                 return "(MathOps.sqrt %s)" % args[0]
+            if f == "math.atan2" and len(args) == 2:
+                return "(MathOps.atan2 %s %s)" % tuple(args)
+            if f in ("math.cos", "math.sin") and len(args) == 1:
+                return "(MathOps.%s %s)" % (f[5:], args[0])
             if f == "abs" and len(args) == 1:
                 return "(pyAbs %s)" % args[0]
             if f == "float" and len(args) == 1:
@@ -584,7 +607,7 @@ class _Imp(object):
                     if name not in self.env:
                         raise TranslateError("arith: %s modified before assignment" % name)
                     val, t = "(%s %s %s)" % (name, _BIN[type(st.op)], self.ex(st.value)), "num"
-                lines.append("%slet %s : %s := %s" % (pad, name, "α" if t == "num" else "Bool", val))
+                lines.append("%slet %s : %s := %s" % (pad, name, {"num": "α", "bool": "Bool", "nat": "Nat"}[t], val))
                 self.env[name] = t
             elif isinstance(st, ast.If) and st.body and isinstance(st.body[-1], ast.Return) and not st.orelse:
                 # early return: `if c: ...; return e` followed by the rest
@@ -681,6 +704,34 @@ def gen_arith():
     out += ["/-- `GcodeHandlers.computeArcCenterOffsets`; `curX`, `curY` = the current logical position -/",
             "def arcCenterOffsets (curX curY endX endY radius : α) (clockwise : Bool) : α × α :=\n"
             + imp.block(f.body[:-1], f.body[-1].value, 1), ""]
+    # planArc: everything before the loop, and one iteration of the loop
+    f = _method(gh, "GcodeHandlers", "planArc", ["endX", "endY", "i", "j", "clockwise"])
+    body = [st for st in f.body if not (isinstance(st, ast.Expr) and isinstance(st.value, ast.Constant))]
+    cut = [k for k, st in enumerate(body) if ast.unparse(st) == "rval = []"]
+    if len(cut) != 1 or not isinstance(body[cut[0] + 1], ast.For):
+        raise TranslateError("arith: shape of planArc (accumulator / loop)")
+    loop = body[cut[0] + 1]
+    if ast.unparse(loop.iter) != "range(1, numSegments)" or loop.orelse:
+        raise TranslateError("arith: planArc loop range: %s" % ast.unparse(loop.iter))
+    tail = [ast.unparse(st) for st in body[cut[0] + 2:] if not ast.unparse(st).startswith("self._logger")]
+    if tail != ["rval += [endX, endY]", "return rval"]:
+        raise TranslateError("arith: planArc after the loop: %s" % tail)
+    consts = {"TWO_PI": ("MathOps.twoPi", "num"), "MM_PER_ARC_SEGMENT": ("(1 : α)", "num"),
+              "self.state.position.X_AXIS.nativeToLogical()": ("curX", "num"),
+              "self.state.position.Y_AXIS.nativeToLogical()": ("curY", "num")}
+    imp = _Imp({"endX": "num", "endY": "num", "i": "num", "j": "num", "clockwise": "bool"}, consts)
+    setup = imp.block(body[:cut[0]], "(centerX, centerY, radius, angularTravel, numSegments, angle, angularIncrement)", 1)
+    out += ["/-- `GcodeHandlers.planArc` up to its loop: centre, radius, signed sweep, number of segments, start",
+            "angle, angular increment (`TWO_PI` = `MathOps.twoPi`, `MM_PER_ARC_SEGMENT` = 1: `ERP.mmPerArcSegment_is_one`) -/",
+            "def planArcSetup (curX curY endX endY i j : α) (clockwise : Bool) : α × α × α × α × Nat × α × α :=\n" + setup, ""]
+    if len(loop.body) != 2 or not isinstance(loop.body[1], ast.AugAssign) or ast.unparse(loop.body[1].target) != "rval" \
+            or not isinstance(loop.body[1].value, ast.List) or len(loop.body[1].value.elts) != 2:
+        raise TranslateError("arith: planArc loop body")
+    imp = _Imp({"centerX": "num", "centerY": "num", "radius": "num", "angularIncrement": "num", "angle": "num"})
+    pt = loop.body[1].value.elts
+    step = imp.block(loop.body[:1], ast.Tuple(elts=[ast.Name(id="angle"), pt[0], pt[1]]), 1)
+    out += ["/-- one iteration of the loop of `planArc`: the new angle and the point appended -/",
+            "def planArcStep (centerX centerY radius angularIncrement angle : α) : α × α × α :=\n" + step, ""]
     out += ["end", "end ERP.Gen", ""]
     return "\n".join(out)
 
